@@ -1,7 +1,7 @@
 //! Kani harnesses for the shared handles of src/channel/oneshot_broadcast.rs (hooked inside `if_alloc::shared`): lifecycle C11.
 //! GROUP: oneshot_broadcast_shared
 //! MODULE: channel::oneshot_broadcast::if_alloc::shared::kani_verif_shared
-//! TAGS: C01 C11
+//! TAGS: C01 C11 C17
 //! N: quick=4 thorough=4
 //! UNWIND_EXTRA: 3
 //! KIND: harness (loop-free handle code; full-domain handle counters where there are any)
@@ -50,6 +50,50 @@ fn receiver_clone_and_drop_count_handles() {
     core::mem::forget((s, r));
 }
 
+unsafe fn nw_clone(_: *const ()) -> core::task::RawWaker {
+    core::task::RawWaker::new(core::ptr::null(), &NOOP)
+}
+unsafe fn nw_noop(_: *const ()) {}
+static NOOP: core::task::RawWakerVTable = core::task::RawWakerVTable::new(nw_clone, nw_noop, nw_noop, nw_noop);
+
+/// the shared (Arc) receive future: Pending keeps its handle, EVERY Ready (value or None) gives it up
+#[kani::proof]
+fn shared_receive_future_protocol() {
+    use core::future::Future;
+    use futures_core::future::FusedFuture;
+    let (s, r) = generic_oneshot_broadcast_channel::<NoopLock, u8>();
+    let wk = unsafe { core::task::Waker::from_raw(core::task::RawWaker::new(core::ptr::null(), &NOOP)) };
+    let mut cx = core::task::Context::from_waker(&wk);
+    let mut f = core::mem::ManuallyDrop::new(r.receive());
+    assert!(!f.is_terminated(), "[C17] is_terminated() is false from creation");
+    let p = unsafe { core::pin::Pin::new_unchecked(&mut *f) }.poll(&mut cx);
+    assert!(p.is_pending() && !f.is_terminated(), "[C17] a pending shared receive future is not terminated (it puts its handle back)");
+    let with_value: bool = kani::any();
+    if with_value {
+        let _ = s.send(7);
+    } else {
+        let _ = s.inner.channel.close();
+    }
+    let p = unsafe { core::pin::Pin::new_unchecked(&mut *f) }.poll(&mut cx);
+    assert!(p.is_ready() && f.is_terminated(), "[C17] after Ready -- with a value or with None -- the future is terminated");
+    core::mem::forget((s, r));
+}
+
+#[kani::proof]
+#[kani::should_panic]
+fn shared_receive_future_poll_after_none_panics() {
+    use core::future::Future;
+    let (s, r) = generic_oneshot_broadcast_channel::<NoopLock, u8>();
+    let wk = unsafe { core::task::Waker::from_raw(core::task::RawWaker::new(core::ptr::null(), &NOOP)) };
+    let mut cx = core::task::Context::from_waker(&wk);
+    let mut f = core::mem::ManuallyDrop::new(r.receive());
+    let _ = s.inner.channel.close();
+    let p = unsafe { core::pin::Pin::new_unchecked(&mut *f) }.poll(&mut cx);
+    assert!(p.is_ready());
+    core::mem::forget((s, r));
+    // polling after completion must panic rather than yield a second result
+    let _ = unsafe { core::pin::Pin::new_unchecked(&mut *f) }.poll(&mut cx);
+}
 #[kani::proof]
 fn dropping_the_sender_n1() {
     check_dropping_the_sender(1);
